@@ -48,6 +48,16 @@ def run_demo(d, wt):
     return sh("timeout 600 mpirun --oversubscribe -n 4 ./demo", cwd=work, timeout=700)
 
 
+def failed(rc, out):
+    """did the demonstration report a failure?  (some run.sh scripts end with an echo and always exit 0)"""
+    if rc != 0:
+        return True
+    m = re.findall(r"exit code:?\s*(\d+)", out)
+    if m and any(int(x) != 0 for x in m):
+        return True
+    return bool(re.search(r"\b(DEMO FAIL|FAIL:|RESULT: FAIL|VIOLATION)\b", out)) and not re.search(r"\bPASS\b", out.split("\n")[-3] if out.count("\n") > 3 else out)
+
+
 def confirm(name):
     d = os.path.join(SEEDED, name)
     meta = json.load(open(os.path.join(d, "meta.json")))
@@ -63,13 +73,13 @@ def confirm(name):
     try:
         # demonstration on the unchanged tree first
         rc0, out0 = run_demo(d, wt)
-        res["demo_without_change"] = {"exit": rc0, "tail": out0[-400:]}
+        res["demo_without_change"] = {"exit": rc0, "tail": out0[-600:]}
         rc, out = sh(f"git -C {wt} apply {os.path.join(d, 'patch.diff')}")
         if rc != 0:
             res["error"] = "patch does not apply to the current tree: " + out[-300:]
             return res
         rc1, out1 = run_demo(d, wt)
-        res["demo_with_change"] = {"exit": rc1, "tail": out1[-400:]}
+        res["demo_with_change"] = {"exit": rc1, "tail": out1[-600:]}
         rc, out = sh(f"cmake -G Ninja -S {wt} -B {wt}/_b >/dev/null 2>&1 && cmake --build {wt}/_b 2>&1 | tail -5", timeout=5400)
         res["suite_builds"] = (rc == 0)
         if rc != 0:
@@ -86,7 +96,9 @@ def confirm(name):
                 res["suite"]["first_run_failed"] = failed
                 res["suite"]["rerun_failed_line"] = m2.group(0) if m2 else out2[-300:]
                 res["suite"]["passed_all"] = bool(m2 and m2.group(2) == "0")
-        res["confirmed"] = bool(res.get("suite_builds") and res.get("suite", {}).get("passed_all") and rc1 != 0 and rc0 == 0)
+        res["demo_fails_with_change"] = failed(rc1, out1)
+        res["demo_passes_without_change"] = not failed(rc0, out0)
+        res["confirmed"] = bool(res.get("suite_builds") and res.get("suite", {}).get("passed_all") and res["demo_fails_with_change"] and res["demo_passes_without_change"])
     finally:
         sh(f"git -C /repo worktree remove --force {wt}")
         shutil.rmtree(wt, ignore_errors=True)
